@@ -594,6 +594,7 @@ def selftest_det(groups, seed, runs):
             if sub.get("no_det"):
                 continue
             n = min(runs, sub["quick"])
+            ULIMIT_KB[0] = int(sub.get("ulimit_kb", os.environ.get("VERIF_ULIMIT_KB", "8000000")))
             dumps = []
             for gmp in ("1", "4", "16"):
                 for rep in range(4):
